@@ -26,6 +26,16 @@ def run(ctx):
             stats["states"] += st2["states"]
             stats["transitions"] += st2["transitions"]
             stats["tlc_runs"] += st2["tlc_runs"]
+    if scns is not None:
+        # mixed-symbol family: chained binary growth over states, controls AND calibrations (random growth rarely mixes them)
+        mix, st3 = scen.generate(ctx, None, ("MC_EKF", "MC_C02mix_sim.cfg"), sim_num=(8 if quick else 200), sim_depth=90)
+        if mix is None:
+            scns, stats = None, st3
+        else:
+            scns = scns + mix
+            stats["states"] += st3["states"]
+            stats["transitions"] += st3["transitions"]
+            stats["tlc_runs"] += st3["tlc_runs"]
     if scns is None:
         ctx.violation("spec-invariant", stats["tlc_violation"][:800], stats)
         return finish(ctx, LEVEL, {"states": 1, "transitions": 1, "traces_validated_against_impl": 0, "samples": [stats]}, ASSUME)
